@@ -46,11 +46,11 @@ theorem splitOn_join (d : Char) (fs : List Str) (hne : fs ≠ []) (h : ∀ f ∈
 section text
 variable {α : Type}
 
-/-- the assumptions on the opaque number printer / parser -/
-structure Clean (fmt : α → Str) (parse : Str → Option α) : Prop where
-  roundtrip : ∀ x, parse (fmt x) = some x
+/-- the assumptions on the opaque number printer / converter (`'%.18g' % x` and `float`) -/
+structure Clean (fmt : α → Str) (conv : Str → α) : Prop where
+  roundtrip : ∀ x, conv (fmt x) = x
   nonempty : ∀ x, fmt x ≠ []
-  chars : ∀ x, ∀ c ∈ fmt x, c ≠ ',' ∧ c ≠ ';' ∧ c ≠ '\t' ∧ c ≠ '\n' ∧ c ≠ '#'
+  chars : ∀ x, ∀ c ∈ fmt x, c ≠ ',' ∧ c ≠ ';' ∧ c ≠ '\t' ∧ c ≠ '\n' ∧ c ≠ '\r' ∧ c ≠ '#' ∧ c ≠ ' '
 
 def linesToFile (ls : List Str) : Str := ls.flatMap (· ++ ['\n'])
 
@@ -64,9 +64,21 @@ theorem splitOn_linesToFile (ls : List Str) (h : ∀ l ∈ ls, '\n' ∉ l) :
     simp only [List.cons_append, List.cons.injEq, true_and]
     exact ih (fun x hx => h x (by simp [hx]))
 
-theorem fileLines_linesToFile (ls : List Str) (h : ∀ l ∈ ls, '\n' ∉ l) :
-    fileLines (linesToFile ls) = ls := by
-  simp [fileLines, splitOn_linesToFile ls h]
+/-- iterating over a file whose lines are all terminated yields the lines with their terminator -/
+theorem pyLines_linesToFile (ls : List Str) (h : ∀ l ∈ ls, '\n' ∉ l) :
+    pyLines (linesToFile ls) = ls.map (· ++ ['\n']) := by
+  simp [pyLines, splitOn_linesToFile ls h]
+
+/-- a text without carriage returns is read as it is -/
+theorem universalNewlines_noCR (s : Str) (h : '\r' ∉ s) : universalNewlines false s = s := by
+  induction s with
+  | nil => rfl
+  | cons c cs ih =>
+    have hc : c ≠ '\r' := fun e => h (by simp [e])
+    have hcs : '\r' ∉ cs := fun e => h (by simp [e])
+    by_cases hn : c = '\n'
+    · subst hn; simp [universalNewlines, ih hcs]
+    · simp [universalNewlines, hc, hn, ih hcs]
 
 theorem mem_join (d : Char) (fs : List Str) (c : Char) (hc : c ∈ join d fs) :
     c = d ∨ ∃ f ∈ fs, c ∈ f := by
@@ -110,130 +122,346 @@ theorem cutComment_clean (l : Str) (h : ∀ c ∈ l, c ≠ '#') : cutComment l =
     simp only [List.takeWhile_cons, ne_eq, hc, not_false_eq_true, decide_true, if_true, List.cons.injEq, true_and]
     exact ih (fun x hx => h x (by simp [hx]))
 
-theorem parseFields_fmt (fmt : α → Str) (parse : Str → Option α) (hc : Clean fmt parse) (row : List α) :
-    parseFields parse (row.map fmt) = some row := by
-  induction row with
+theorem dropWhile_head_false (p : Char → Bool) (l : Str) (h : ∀ c, l.head? = some c → p c = false) :
+    l.dropWhile p = l := by
+  cases l with
   | nil => rfl
-  | cons x xs ih => simp [parseFields, hc.roundtrip, ih]
+  | cons a t => simp [h a rfl]
 
-/-- a line that is the comma-joined print of a non-empty row parses back to the row -/
-theorem parseRows_rows (fmt : α → Str) (parse : Str → Option α) (hc : Clean fmt parse)
-    (rows : List (List α)) (hne : ∀ row ∈ rows, row ≠ []) :
-    parseRows parse (rows.map fun row => join ',' (row.map fmt)) = some rows := by
-  induction rows with
-  | nil => rfl
-  | cons row rows ih =>
-    have hrow : row ≠ [] := hne row (by simp)
-    have hfs : row.map fmt ≠ [] := by simpa using hrow
-    have hchars : ∀ c ∈ join ',' (row.map fmt), c ≠ '#' := by
-      intro c hcm
-      rcases mem_join _ _ _ hcm with e | ⟨f, hf, hcf⟩
-      · rw [e]; decide
-      · obtain ⟨x, _, rfl⟩ := List.mem_map.mp hf
-        exact (hc.chars x c hcf).2.2.2.2
-    have hnocomma : ∀ f ∈ row.map fmt, ',' ∉ f := by
-      intro f hf hcf
-      obtain ⟨x, _, rfl⟩ := List.mem_map.mp hf
-      exact (hc.chars x ',' hcf).1 rfl
-    have hbody : join ',' (row.map fmt) ≠ [] :=
-      join_ne_nil _ _ hfs (fun f hf => by obtain ⟨x, _, rfl⟩ := List.mem_map.mp hf; exact hc.nonempty x)
-    simp only [List.map_cons, parseRows]
-    rw [cutComment_clean _ hchars, if_neg hbody, splitOn_join ',' _ hfs hnocomma, parseFields_fmt fmt parse hc,
-      ih (fun r hr => hne r (by simp [hr]))]
-
-theorem shapeRule_two (r c : Nat) : shapeRule 2 r c = [r, c] := by
-  simp [shapeRule]
-
+/-- a line whose characters are not stripped, followed by its terminator, is stripped to the line -/
+theorem strip_line (s : Str) (hne : s ≠ []) (h : ∀ c ∈ s, isStripChar c = false) :
+    strip (s ++ ['\n']) = s := by
+  unfold strip
+  have h1 : (s ++ ['\n']).dropWhile isStripChar = s ++ ['\n'] := by
+    apply dropWhile_head_false
+    intro c hc
+    cases s with
+    | nil => exact absurd rfl hne
+    | cons a t => simp at hc; subst hc; exact h a (by simp)
+  rw [h1, List.reverse_append]
+  have h2 : (['\n'].reverse ++ s.reverse).dropWhile isStripChar = s.reverse := by
+    have : isStripChar '\n' = true := by decide
+    simp only [List.reverse_cons, List.reverse_nil, List.nil_append, List.singleton_append, List.dropWhile_cons,
+      this, if_true]
+    apply dropWhile_head_false
+    intro c hc
+    have : c ∈ s := by
+      have : c ∈ s.reverse := List.mem_of_mem_head? hc
+      simpa using this
+    exact h c this
+  rw [h2, List.reverse_reverse]
 
 def rowLine (fmt : α → Str) (row : List α) : Str := join ',' (row.map fmt)
 
-theorem rowLine_chars (fmt : α → Str) (parse : Str → Option α) (hc : Clean fmt parse) (row : List α) :
-    ∀ c ∈ rowLine fmt row, c ≠ ';' ∧ c ≠ '\t' ∧ c ≠ '\n' ∧ c ≠ '#' := by
+theorem rowLine_chars (fmt : α → Str) (conv : Str → α) (hc : Clean fmt conv) (row : List α) :
+    ∀ c ∈ rowLine fmt row, c ≠ ';' ∧ c ≠ '\t' ∧ c ≠ '\n' ∧ c ≠ '\r' ∧ c ≠ '#' ∧ c ≠ ' ' := by
   intro c hcm
   rcases mem_join _ _ _ hcm with e | ⟨f, hf, hcf⟩
   · rw [e]; decide
   · obtain ⟨x, _, rfl⟩ := List.mem_map.mp hf
-    have := hc.chars x c hcf
-    exact ⟨this.2.1, this.2.2.1, this.2.2.2.1, this.2.2.2.2⟩
+    exact (hc.chars x c hcf).2
 
-def hdrLines : Option Str → List Str
-  | none => []
-  | some h => ['#' :: ' ' :: h]
+theorem rowLine_ne_nil (fmt : α → Str) (conv : Str → α) (hc : Clean fmt conv) (row : List α) (hrow : row ≠ []) :
+    rowLine fmt row ≠ [] :=
+  join_ne_nil _ _ (by simpa using hrow)
+    (fun f hf => by obtain ⟨x, _, rfl⟩ := List.mem_map.mp hf; exact hc.nonempty x)
 
-theorem saveText_lines (fmt : α → Str) (header : Option Str) (img : List (List α)) :
+/-- the splitter gives back the printed fields of a written row (comma separated, terminated) -/
+theorem splitLine_rowLine (fmt : α → Str) (conv : Str → α) (hc : Clean fmt conv) (row : List α) (hrow : row ≠ []) :
+    splitLine (normalise (rowLine fmt row ++ ['\n'])) = row.map fmt := by
+  have hch := rowLine_chars fmt conv hc row
+  have hnorm : normalise (rowLine fmt row ++ ['\n']) = rowLine fmt row ++ ['\n'] := by
+    apply normalise_clean
+    intro c hcm
+    rcases List.mem_append.mp hcm with h | h
+    · exact ⟨(hch c h).1, (hch c h).2.1⟩
+    · simp at h; subst h; decide
+  have hcut : cutComment (rowLine fmt row ++ ['\n']) = rowLine fmt row ++ ['\n'] := by
+    apply cutComment_clean
+    intro c hcm
+    rcases List.mem_append.mp hcm with h | h
+    · exact (hch c h).2.2.2.2.1
+    · simp at h; subst h; decide
+  have hne := rowLine_ne_nil fmt conv hc row hrow
+  have hstrip : strip (rowLine fmt row ++ ['\n']) = rowLine fmt row := by
+    apply strip_line _ hne
+    intro c hcm
+    have := hch c hcm
+    simp [isStripChar, this.2.2.1, this.2.2.2.1, this.2.2.2.2.2]
+  have hnocomma : ∀ f ∈ row.map fmt, ',' ∉ f := by
+    intro f hf hcf
+    obtain ⟨x, _, rfl⟩ := List.mem_map.mp hf
+    exact (hc.chars x ',' hcf).1 rfl
+  unfold splitLine
+  simp only [hnorm, hcut, hstrip, if_neg hne]
+  exact splitOn_join ',' _ (by simpa using hrow) hnocomma
+
+/-- a line that starts with the comment character has no field, whatever follows -/
+theorem splitLine_comment (rest : Str) : splitLine (normalise ('#' :: rest)) = [] := by
+  simp [splitLine, normalise, cutComment, strip]
+
+/-- the header text is one comment line per line of the header -/
+theorem headerText_lines (h : Str) (hne : h ≠ []) :
+    headerText h = linesToFile ((splitOn '\n' h).map ('#' :: ·)) := by
+  have key : ∀ t : Str, t.flatMap (fun c => if c = '\n' then ['\n', '#'] else [c]) ++ ['\n']
+      = (match splitOn '\n' t with
+          | [] => []
+          | x :: xs => x ++ '\n' :: linesToFile (xs.map ('#' :: ·))) := by
+    intro t
+    induction t with
+    | nil => simp [splitOn, linesToFile]
+    | cons c cs ih =>
+      by_cases hc : c = '\n'
+      · subst hc
+        simp only [List.flatMap_cons, if_true, splitOn, List.nil_append, List.cons_append]
+        rw [ih]
+        cases hs : splitOn '\n' cs with
+        | nil => exact absurd hs (splitOn_ne_nil _ _)
+        | cons x xs => simp [linesToFile]
+      · simp only [List.flatMap_cons, if_neg hc, splitOn, List.cons_append, List.nil_append]
+        rw [ih]
+        cases hs : splitOn '\n' cs with
+        | nil => exact absurd hs (splitOn_ne_nil _ _)
+        | cons x xs => simp
+  unfold headerText
+  rw [if_neg hne, List.cons_append, key h]
+  cases hs : splitOn '\n' h with
+  | nil => exact absurd hs (splitOn_ne_nil _ _)
+  | cons x xs => simp [linesToFile]
+
+theorem splitOn_no_delim (d : Char) (s : Str) : ∀ l ∈ splitOn d s, d ∉ l := by
+  induction s with
+  | nil => simp [splitOn]
+  | cons c cs ih =>
+    intro l hl
+    by_cases hc : c = d
+    · simp only [splitOn, if_pos hc] at hl
+      rcases List.mem_cons.mp hl with e | e
+      · subst e; simp
+      · exact ih l e
+    · simp only [splitOn, if_neg hc] at hl
+      cases hs : splitOn d cs with
+      | nil => exact absurd hs (splitOn_ne_nil _ _)
+      | cons x xs =>
+        rw [hs] at hl ih
+        rcases List.mem_cons.mp hl with e | e
+        · subst e
+          intro hm
+          rcases List.mem_cons.mp hm with e2 | e2
+          · exact hc e2.symm
+          · exact ih x (by simp) e2
+        · exact ih l (by simp [e])
+
+def hdrLines (h : Str) : List Str := if h = [] then [] else (splitOn '\n' h).map ('#' :: ·)
+
+theorem saveText_lines (fmt : α → Str) (header : Str) (img : List (List α)) :
     saveText fmt header img = linesToFile (hdrLines header ++ img.map (rowLine fmt)) := by
-  cases header with
-  | none => simp [saveText, headerLines, hdrLines, linesToFile, rowLine, List.flatMap_map]
-  | some h =>
-    simp [saveText, headerLines, hdrLines, linesToFile, rowLine, List.flatMap_map]
+  have hrows : (img.flatMap fun row => join ',' (row.map fmt) ++ ['\n']) = linesToFile (img.map (rowLine fmt)) := by
+    simp [linesToFile, rowLine, List.flatMap_map]
+  unfold saveText hdrLines
+  rw [hrows]
+  by_cases hh : header = []
+  · simp [hh, headerText, linesToFile]
+  · rw [headerText_lines header hh, if_neg hh]
+    simp [linesToFile]
 
-theorem parseRows_skip_header (parse : Str → Option α) (header : Option Str) (rest : List Str) :
-    parseRows parse ((hdrLines header).map normalise ++ rest) = parseRows parse rest := by
-  cases header with
-  | none => rfl
-  | some h =>
-    simp only [hdrLines, List.map_cons, List.map_nil, List.cons_append, List.nil_append, parseRows]
-    have : cutComment (normalise ('#' :: ' ' :: h)) = [] := by
-      simp [normalise, cutComment]
-    rw [this]
-    simp
+theorem fieldRows_append (a b : List Str) : fieldRows (a ++ b) = fieldRows a ++ fieldRows b := by
+  simp [fieldRows]
 
-/-- the table that `genfromtxt` builds from a saved file -/
-theorem parse_saved (fmt : α → Str) (parse : Str → Option α) (hc : Clean fmt parse)
-    (header : Option Str) (hh : ∀ h, header = some h → '\n' ∉ h) (img : List (List α))
+theorem fieldRows_header (h : Str) : fieldRows (((hdrLines h).map (· ++ ['\n'])).map normalise) = [] := by
+  unfold hdrLines fieldRows
+  by_cases hh : h = []
+  · simp [hh]
+  · rw [if_neg hh]
+    simp only [List.map_map]
+    rw [List.filter_eq_nil_iff]
+    intro r hr
+    obtain ⟨l, _, rfl⟩ := List.mem_map.mp hr
+    simp [splitLine_comment]
+
+theorem fieldRows_rows (fmt : α → Str) (conv : Str → α) (hc : Clean fmt conv) (img : List (List α))
     (hne : ∀ row ∈ img, row ≠ []) :
-    parseRows parse ((fileLines (saveText fmt header img)).map normalise) = some img := by
-  rw [saveText_lines, fileLines_linesToFile]
-  · rw [List.map_append, parseRows_skip_header]
-    have : (img.map (rowLine fmt)).map normalise = img.map (fun row => join ',' (row.map fmt)) := by
-      rw [List.map_map]
-      apply List.map_congr_left
-      intro row _
-      simp only [Function.comp]
-      exact normalise_clean _ (fun c hcm => by
-        have := rowLine_chars fmt parse hc row c hcm; exact ⟨this.1, this.2.1⟩)
-    rw [this]
-    exact parseRows_rows fmt parse hc img hne
-  · intro l hl
-    rcases List.mem_append.mp hl with h | h
-    · cases header with
-      | none => simp [hdrLines] at h
-      | some hd =>
-        simp only [hdrLines, List.mem_singleton] at h
-        subst h
-        have := hh hd rfl
-        intro hmem
-        simp only [List.mem_cons] at hmem
-        rcases hmem with e | e | e
-        · exact absurd e (by decide)
-        · exact absurd e (by decide)
-        · exact this e
-    · obtain ⟨row, _, rfl⟩ := List.mem_map.mp h
-      intro hmem
-      exact (rowLine_chars fmt parse hc row _ hmem).2.2.1 rfl
+    fieldRows (((img.map (rowLine fmt)).map (· ++ ['\n'])).map normalise) = img.map (·.map fmt) := by
+  induction img with
+  | nil => rfl
+  | cons row img ih =>
+    have hrow := hne row (by simp)
+    have := splitLine_rowLine fmt conv hc row hrow
+    simp only [fieldRows, List.map_cons, this] at ih ⊢
+    rw [List.filter_cons_of_pos (by simpa using hrow)]
+    rw [ih (fun r hr => hne r (by simp [hr]))]
 
-theorem load_of_table (parse : Str → Option α) (file : Str) (img : List (List α)) (c : Nat)
-    (hne : img ≠ []) (hcols : ∀ row ∈ img, row.length = c)
-    (h : parseRows parse ((fileLines file).map normalise) = some img) :
-    loadText parse 2 file = some ([img.length, c], img.flatten) := by
-  unfold loadText
+/-- the rows of fields `genfromtxt` finds in a saved file: exactly the printed values -/
+theorem fieldRows_saved (fmt : α → Str) (conv : Str → α) (hc : Clean fmt conv)
+    (header : Str) (hh : '\r' ∉ header) (img : List (List α)) (hne : ∀ row ∈ img, row ≠ []) :
+    fieldRows (loaderLines (saveText fmt header img)) = img.map (·.map fmt) := by
+  have hnl : ∀ l ∈ hdrLines header ++ img.map (rowLine fmt), '\n' ∉ l := by
+    intro l hl
+    rcases List.mem_append.mp hl with h | h
+    · unfold hdrLines at h
+      split at h
+      · simp at h
+      · obtain ⟨p, hp, rfl⟩ := List.mem_map.mp h
+        intro hm
+        rcases List.mem_cons.mp hm with e | e
+        · exact absurd e (by decide)
+        · exact splitOn_no_delim '\n' header p hp e
+    · obtain ⟨row, _, rfl⟩ := List.mem_map.mp h
+      intro hm
+      exact (rowLine_chars fmt conv hc row _ hm).2.2.1 rfl
+  have hcr : '\r' ∉ saveText fmt header img := by
+    intro hm
+    unfold saveText at hm
+    rcases List.mem_append.mp hm with h | h
+    · unfold headerText at h
+      split at h
+      · simp at h
+      · simp only [List.cons_append, List.mem_cons, List.mem_append, List.mem_flatMap] at h
+        rcases h with e | ⟨c, hcm, hx⟩ | e
+        · exact absurd e (by decide)
+        · split at hx
+          · simp at hx
+          · simp at hx; subst hx; exact hh hcm
+        · simp at e
+    · obtain ⟨row, _, hx⟩ := List.mem_flatMap.mp h
+      rcases List.mem_append.mp hx with e | e
+      · exact (rowLine_chars fmt conv hc row _ e).2.2.2.1 rfl
+      · simp at e
+  unfold loaderLines
+  rw [universalNewlines_noCR _ hcr, saveText_lines, pyLines_linesToFile _ hnl, List.map_append, List.map_append,
+    fieldRows_append, fieldRows_header, List.nil_append, fieldRows_rows fmt conv hc img hne]
+
+theorem shapeRule_two (r c : Nat) : shapeRule 2 [r, c] = [r, c] := by
+  simp [shapeRule]
+
+/-- from the rows of fields to the loaded image -/
+theorem load_of_rows (conv : Str → α) (fmt : α → Str) (hrt : ∀ x, conv (fmt x) = x) (file : Str)
+    (img : List (List α)) (c : Nat) (hne : img ≠ []) (hcols : ∀ row ∈ img, row.length = c)
+    (h : fieldRows (loaderLines file) = img.map (·.map fmt)) :
+    loadText conv 2 file = some ([img.length, c], img.flatten) := by
+  unfold loadText loadFields
   rw [h]
   cases img with
   | nil => exact absurd rfl hne
   | cons r rs =>
     have hr : r.length = c := hcols r (by simp)
-    have hall : rs.all (fun q => q.length == r.length) = true := by
+    have hall : (rs.map (·.map fmt)).all (fun q => q.length == (r.map fmt).length) = true := by
       rw [List.all_eq_true]
       intro q hq
-      simp [hcols q (by simp [hq]), hr]
-    rw [hr] at hall
-    simp only [shapeRule_two, List.length_cons, hr, hall, if_true]
+      obtain ⟨q', hq', rfl⟩ := List.mem_map.mp hq
+      simp [hcols q' (by simp [hq']), hr]
+    have hdata : ((r :: rs).map (·.map fmt)).flatten.map conv = (r :: rs).flatten := by
+      rw [List.map_flatten, List.map_map]
+      congr 1
+      conv => rhs; rw [← List.map_id (r :: rs)]
+      apply List.map_congr_left
+      intro row _
+      simp only [Function.comp, id, List.map_map]
+      conv => rhs; rw [← List.map_id row]
+      exact List.map_congr_left (fun x _ => hrt x)
+    simp only [List.length_map, hr] at hall
+    simp only [List.map_cons, hall, if_true, Option.map_some, List.length_map, shapeRule_two, List.length_cons, hr]
+    simp only [List.map_cons] at hdata
+    rw [hdata]
 
-
-def IsDelim (c : Char) : Prop := c = ',' ∨ c = ';' ∨ c = '\t'
+/-! ### the choice of delimiter never matters -/
 
 theorem normalise_append (x y : Str) : normalise (x ++ y) = normalise x ++ normalise y := by
   simp [normalise]
+
+theorem normalise_idem (s : Str) : normalise (normalise s) = normalise s := by
+  unfold normalise
+  rw [List.map_map]
+  apply List.map_congr_left
+  intro c _
+  by_cases h : c = ';' ∨ c = '\t'
+  · simp [h]
+  · simp [h]
+
+theorem normalise_char (c : Char) :
+    ((if c = ';' ∨ c = '\t' then ',' else c) = '\r' ↔ c = '\r') ∧
+    ((if c = ';' ∨ c = '\t' then ',' else c) = '\n' ↔ c = '\n') := by
+  by_cases h : c = ';' ∨ c = '\t'
+  · rw [if_pos h]
+    rcases h with e | e <;> subst e <;> decide
+  · rw [if_neg h]; exact ⟨Iff.rfl, Iff.rfl⟩
+
+theorem universalNewlines_normalise (b : Bool) (s : Str) :
+    universalNewlines b (normalise s) = normalise (universalNewlines b s) := by
+  induction s generalizing b with
+  | nil => rfl
+  | cons c cs ih =>
+    have hch := normalise_char c
+    have hnl : normalise ['\n'] = ['\n'] := by decide
+    by_cases h1 : c = '\r'
+    · subst h1
+      have := ih true
+      simp only [normalise] at this
+      simp [universalNewlines, normalise, this]
+    · by_cases h2 : c = '\n'
+      · subst h2
+        have := ih false
+        simp only [normalise] at this
+        cases b <;> simp [universalNewlines, normalise, this]
+      · have e1 : ¬ (if c = ';' ∨ c = '\t' then ',' else c) = '\r' := fun e => h1 (hch.1.mp e)
+        have e2 : ¬ (if c = ';' ∨ c = '\t' then ',' else c) = '\n' := fun e => h2 (hch.2.mp e)
+        have := ih false
+        simp only [normalise] at this
+        simp only [normalise, List.map_cons, universalNewlines, if_neg e1, if_neg e2, if_neg h1, if_neg h2, this]
+
+theorem splitOn_normalise (s : Str) : splitOn '\n' (normalise s) = (splitOn '\n' s).map normalise := by
+  induction s with
+  | nil => rfl
+  | cons c cs ih =>
+    have hch := (normalise_char c).2
+    by_cases h2 : c = '\n'
+    · subst h2
+      have : normalise ('\n' :: cs) = '\n' :: normalise cs := by simp [normalise]
+      rw [this]
+      simp only [splitOn, if_true, ih, List.map_cons]
+      rfl
+    · have e2 : ¬ (if c = ';' ∨ c = '\t' then ',' else c) = '\n' := fun e => h2 (hch.mp e)
+      have : normalise (c :: cs) = (if c = ';' ∨ c = '\t' then ',' else c) :: normalise cs := by simp [normalise]
+      rw [this]
+      simp only [splitOn, if_neg e2, if_neg h2, ih]
+      cases hs : splitOn '\n' cs with
+      | nil => exact absurd hs (splitOn_ne_nil _ _)
+      | cons x xs => simp [normalise]
+
+theorem pyLines_normalise (s : Str) : pyLines (normalise s) = (pyLines s).map normalise := by
+  unfold pyLines
+  rw [splitOn_normalise]
+  have hne := splitOn_ne_nil '\n' s
+  generalize splitOn '\n' s = p at hne
+  have hlast : (p.map normalise).getLast? = p.getLast?.map normalise := by simp [List.getLast?_map]
+  show (List.map (fun x => x ++ ['\n']) (p.map normalise).dropLast ++
+      match (p.map normalise).getLast? with
+      | some [] => []
+      | some l => [l]
+      | none => []) = _
+  rw [hlast]
+  simp only [List.map_append, List.map_map, ← List.map_dropLast]
+  congr 1
+  · apply List.map_congr_left
+    intro l _
+    simp [Function.comp, normalise_append]
+    rfl
+  · cases hg : p.getLast? with
+    | none => rfl
+    | some l =>
+      cases l with
+      | nil => rfl
+      | cons a t => simp [normalise]
+
+/-- the lines the loader works on depend only on the file with `;` and tab already replaced -/
+theorem loaderLines_normalise (file : Str) : loaderLines (normalise file) = loaderLines file := by
+  unfold loaderLines
+  rw [universalNewlines_normalise, pyLines_normalise, List.map_map]
+  apply List.map_congr_left
+  intro l _
+  exact normalise_idem l
+
+def IsDelim (c : Char) : Prop := c = ',' ∨ c = ';' ∨ c = '\t'
 
 theorem normalise_joinWith (ss : List Char) (fs : List Str) (hs : ∀ s ∈ ss, IsDelim s)
     (hf : ∀ f ∈ fs, ∀ c ∈ f, c ≠ ';' ∧ c ≠ '\t') :
@@ -260,49 +488,27 @@ theorem normalise_joinWith (ss : List Char) (fs : List Str) (hs : ∀ s ∈ ss, 
           rcases hsd with e | e | e <;> subst e <;> simp [normalise]
         rw [this, ih ss (fun t ht => hs t (by simp [ht])) (fun f h => hf f (by simp [h]))]
 
-theorem newline_mem_normalise (l : Str) (h : '\n' ∈ l) : '\n' ∈ normalise l := by
-  unfold normalise
-  rw [List.mem_map]
-  exact ⟨'\n', h, by decide⟩
-
-theorem saveWith_lines (fmt : α → Str) (seps : List (List Char)) (img : List (List α)) :
-    saveWith fmt seps img = linesToFile ((List.zip seps img).map fun p => joinWith p.1 (p.2.map fmt)) := by
-  simp [saveWith, linesToFile, List.flatMap_map]
-
-theorem zip_lines_normalise (fmt : α → Str) (parse : Str → Option α) (hc : Clean fmt parse)
+/-- replacing `;` and tab in a file written with any mixture of separators gives the file `save` writes -/
+theorem normalise_saveWith (fmt : α → Str) (conv : Str → α) (hc : Clean fmt conv)
     (seps : List (List Char)) (img : List (List α)) (hlen : seps.length = img.length)
     (hs : ∀ ss ∈ seps, ∀ s ∈ ss, IsDelim s) :
-    ((List.zip seps img).map fun p => joinWith p.1 (p.2.map fmt)).map normalise
-      = img.map (fun row => join ',' (row.map fmt)) := by
+    normalise (saveWith fmt seps img) = saveText fmt [] img := by
+  unfold saveWith saveText headerText
+  simp only [if_true, List.nil_append]
   induction img generalizing seps with
-  | nil => cases seps <;> simp
+  | nil => cases seps <;> simp [normalise]
   | cons row img ih =>
     cases seps with
     | nil => simp at hlen
     | cons ss seps =>
-      simp only [List.zip_cons_cons, List.map_cons, List.cons.injEq]
-      refine ⟨?_, ih seps (by simpa using hlen) (fun t ht => hs t (by simp [ht]))⟩
-      apply normalise_joinWith ss _ (hs ss (by simp))
-      intro f hf c hcf
-      obtain ⟨x, _, rfl⟩ := List.mem_map.mp hf
-      have := hc.chars x c hcf
-      exact ⟨this.2.1, this.2.2.1⟩
-
-theorem parse_saveWith (fmt : α → Str) (parse : Str → Option α) (hc : Clean fmt parse)
-    (seps : List (List Char)) (img : List (List α)) (hlen : seps.length = img.length)
-    (hs : ∀ ss ∈ seps, ∀ s ∈ ss, IsDelim s) (hne : ∀ row ∈ img, row ≠ []) :
-    parseRows parse ((fileLines (saveWith fmt seps img)).map normalise) = some img := by
-  have hn := zip_lines_normalise fmt parse hc seps img hlen hs
-  rw [saveWith_lines, fileLines_linesToFile, hn]
-  · exact parseRows_rows fmt parse hc img hne
-  · intro l hl hmem
-    have h1 : normalise l ∈ ((List.zip seps img).map fun p => joinWith p.1 (p.2.map fmt)).map normalise :=
-      List.mem_map.mpr ⟨l, hl, rfl⟩
-    rw [hn] at h1
-    obtain ⟨row, _, hrow⟩ := List.mem_map.mp h1
-    have h2 := newline_mem_normalise l hmem
-    rw [← hrow] at h2
-    exact (rowLine_chars fmt parse hc row _ h2).2.2.1 rfl
+      simp only [List.zip_cons_cons, List.flatMap_cons]
+      rw [normalise_append, normalise_append, ih seps (by simpa using hlen) (fun t ht => hs t (by simp [ht]))]
+      rw [normalise_joinWith ss _ (hs ss (by simp))]
+      · rfl
+      · intro f hf c hcf
+        obtain ⟨x, _, rfl⟩ := List.mem_map.mp hf
+        have := hc.chars x c hcf
+        exact ⟨this.2.1, this.2.2.1⟩
 
 end text
 
@@ -379,6 +585,11 @@ theorem offsetsFrom_get (o : Nat) (ns : List Nat) (k : Nat) (hk : k < ns.length)
       rw [ih _ k (by simpa using hk)]
       congr 1
       omega
+
+theorem offsetsFrom_length (o : Nat) (ns : List Nat) : (offsetsFrom o ns).length = ns.length := by
+  induction ns generalizing o with
+  | nil => rfl
+  | cons n ns ih => simp [offsetsFrom, ih]
 
 theorem sum_blocks_mod (bs : List (List α)) : ((bs.map (fun b => b.length * 8 + 8))).sum % 8 = 0 := by
   induction bs with
